@@ -20,7 +20,8 @@ kanirun.META.update({
 kanirun.DIRS.update({
     "C05": ["graph", "C05"],
     "C06": ["graph", "C06"],
-    "C08": ["graph", "C08"],
+    "C08": ["graph", "proto", "C08"],
+    "C15": ["proto", "C15"],
 })
 
 
@@ -84,4 +85,10 @@ kanirun.META["C08"] = {
     "bounds": "graph: look-up cycles A<->B, self look-up, A->B->C->A with one file read; recursion bound 8 frames (> nodes+1); protocol: see harness list",
     "outside": "std locks; OS scheduling fairness; event bursts from a real watcher",
     "assumptions": COMMON_ASSUME + ["parking_lot::Condvar has no spurious wake-ups (documented) and wakes every waiter on notify_all; weak fairness of the scheduler"],
+}
+
+kanirun.META["C15"] = {
+    "bounds": "one cache; scenarios: dropped while idle / right after a hot_reload, event sender kept by the source or dropped with it, <= 2 queued events for unknown entries; <= 4 scheduler actions; the reloader may wake at most 2 times in a row without consuming a message",
+    "outside": "the notify watcher thread and OS-level CPU accounting (used only in the native replay); more than one cache per process",
+    "assumptions": COMMON_ASSUME + ["crossbeam Select::ready returns when an operation is ready OR its channel is disconnected (documented); fair choice among several ready operations"],
 }
